@@ -68,6 +68,55 @@ def complete_midstep(p0: int, p1: int, p2: int, p3: int, c: int, t: int) -> bool
     return hx.end(True)
 
 
+class S2(S):
+    """completes the model when the scheduler reaches a given timestep"""
+    __slots__ = ['at']
+
+    def execute(self):
+        self.model.log.append((self.id, self.model.systems.timestep))
+        if self.at is not None and self.model.systems.timestep == self.at:
+            self.model.complete()
+
+
+def complete_during_multistep(p0: int, p1: int, p2: int, c: int, t: int, at: int) -> bool:
+    """
+    pre: p0 >= p1 >= p2
+    pre: 0 <= c < hx.P['n']
+    pre: 0 <= at < hx.P['k']
+    post: _
+    """
+    # completion in the middle of a multi-step request execute(k): the rest of that timestep AND the remaining steps of
+    # the same request are skipped; the timestep stops right after the completing one
+    hx.begin()
+    n, k = hx.P['n'], hx.P['k']
+    m = LogModel()
+    q = []
+    ps = [p0, p1, p2]
+    for i in range(n):
+        s_ = S2("s%d" % i, m, ps[i])
+        s_.start, s_.end, s_.at, s_.completes = t, t + 1000, None, False
+        q.append(s_)
+        m.systems.systems[s_.id] = s_
+    m.systems.execution_queue = list(q)
+    m.systems.timestep = t
+    for i in range(n):
+        if c == i:
+            q[i].at = t + at
+    m.execute(k)
+    exp = []
+    for step in range(at + 1):
+        for i in range(n):
+            if step < at or i <= c:
+                exp.append(("s%d" % i, t + step))
+    if at < k - 1:
+        hx.reach('steps_skipped')
+    if m.log != exp:
+        return hx.end(hx.fail("systems run by execute(k) when the model completes during step %d" % at, got=m.log, exp=exp))
+    if m.systems.timestep != t + at + 1 or m.timestep != t + at + 1:
+        return hx.end(hx.fail("timestep after completion inside execute(k)", got=m.systems.timestep, exp=t + at + 1))
+    return hx.end(not m.is_running())
+
+
 def after_complete_step(p0: int, p1: int, p2: int, t: int, inside: bool, n_adv: int, pnew: int) -> bool:
     """
     pre: p0 >= p1 >= p2
@@ -218,6 +267,9 @@ def obligations(tier):
         X("complete_midstep", complete_midstep, parts=[{"n": n} for n in ns], labels=("skipped_rest",),
           labels_for=lambda p: ("skipped_rest",) if p["n"] > 1 else (), timeout=300, encoded=enc,
           bounds={"n": "1..%d" % ns[-1]}),
+        X("complete_during_multistep", complete_during_multistep,
+          parts=[{"n": n, "k": k} for n, k in (((1, 2), (2, 3), (3, 2)) if tier == "quick" else ((1, 2), (2, 3), (3, 2), (3, 4), (2, 5)))],
+          labels=("steps_skipped",), timeout=600, encoded=enc, bounds={"n": "1..3", "k": "2..%d" % (3 if tier == "quick" else 5)}),
         X("after_complete_step", after_complete_step, parts=[{"n": n, "req": r} for n in (0, 2, 3) for r in reqs],
           labels=("completed_inside", "completed_outside"),
           labels_for=lambda p: ("completed_inside", "completed_outside") if p["n"] else ("completed_outside",),
